@@ -185,6 +185,13 @@ func vTemplates() []vUpdTemplate {
 			return vWith(vWith(p, "a", b[":v"]), "n", vN(p["n"].N+b[":n"].N))
 		}},
 		{"set a = :v remove b", []string{":v"}, func(p, b vVals) vVals { return vWithout(vWith(p, "a", b[":v"]), "b") }},
+		{"SET c = n ADD n :n", []string{":n"}, func(p, b vVals) vVals { return vWith(vWith(p, "c", p["n"]), "n", vN(p["n"].N+b[":n"].N)) }},
+		{"SET c = s ADD s :s", []string{":s"}, func(p, b vVals) vVals {
+			return vWith(vWith(p, "c", p["s"]), "s", vspec.Val{Kind: "SS", SS: vUnionS(p["s"].SS, b[":s"].SS)})
+		}},
+		{"SET c = l, l[0] = :v", []string{":v"}, func(p, b vVals) vVals { return vWith(vWith(p, "c", p["l"]), "l", vListSet(p["l"], 0, b[":v"])) }},
+		{"SET c = m, m.k = :v", []string{":v"}, func(p, b vVals) vVals { return vWith(vWith(p, "c", p["m"]), "m", vSetMember(p["m"], "k", b[":v"])) }},
+		{"SET c = l REMOVE l[0]", nil, func(p, b vVals) vVals { return vWith(vWith(p, "c", p["l"]), "l", vListDel(p["l"], 0)) }},
 	}
 }
 
@@ -193,7 +200,11 @@ func vTemplates() []vUpdTemplate {
 // drawn as the bystander u) keeps its value.
 func VerifC07Update() {
 	ts := vTemplates()
-	t := ts[nd.Choice("template", len(ts))]
+	ti := nd.Param("template", -1) // debugging: restrict to one template
+	if ti < 0 {
+		ti = nd.Choice("template", len(ts))
+	}
+	t := ts[ti]
 	pre := vVals{
 		"n": vN(7),
 		"m": {Kind: "M", M: map[string]vspec.Val{"k": vS1("mk"), "j": vS1("mj")}},
